@@ -527,7 +527,9 @@ impl Local {
     #[inline]
     pub(crate) fn acquire_handle(&self) {
         let handle_count = self.handle_count.get();
-        debug_assert!(handle_count >= 1);
+        // A participant is kept alive by its handles or by a live guard: a guard obtained through
+        // a temporary registration (after the thread-local handle is gone) outlives its handle.
+        debug_assert!(handle_count >= 1 || self.guard_count.get() >= 1);
         self.handle_count.set(handle_count + 1);
     }
 
